@@ -645,6 +645,17 @@ def lone_cell_forms():
                 f.choices = {"l1": [{"name": "a", "label": "A", "cf": "1"}]}
                 f.settings = {"form_id": "lone"}
                 yield f, f"lone|{ref[2:6]}|{col}|{wrap}"
+        # the entities sheet: its expressions are cells like any other
+        for col in ("label", "create_if", "update_if", "entity_id"):
+            ent = {"list_name": "things", "label": "'L'"}
+            if col in ("update_if", "entity_id"):
+                ent["entity_id"] = "'id-1'"
+            ent[col] = f"concat({ref}, 'x')" if col in ("label", "entity_id") else f"{ref} = 1"
+            f = Form()
+            f.survey = [Row("q", "integer", "t", {"label": "t", "save_to": "p1"})]
+            f.entities = ent
+            f.settings = {"form_id": "lone"}
+            yield f, f"lone|{ref[2:6]}|entity-{col}"
         for kind in ("group", "repeat"):
             for col in ("label", "relevant", "repeat_count"):
                 if col == "repeat_count" and kind != "repeat":
